@@ -55,10 +55,12 @@ def schedules(ctx, name, conns, ncmd, simulate=None, depth=None):
     return r, sched, n
 
 
-def force_and_validate(ctx, label, sched, conns, spin=False):
+def force_and_validate(ctx, label, sched, conns, spin=False, batches=0):
     trace = os.path.join(ctx.scratch, "trace_%s.ndjson" % label)
-    rc, js, err = ctx.harness(["prewrite", "-in", sched, "-out", trace, "-conns", str(conns), "-par", "8"] +
+    rc, js, err = ctx.harness(["prewrite", "-in", sched, "-out", trace, "-conns", str(conns), "-par", "8", "-batches", str(batches)] +
                               (["-spinlock"] if spin else []))
+    if batches and not js.get("batches"):
+        raise common.Infra("no pipelined batch was run (vacuous)")
     if js["writes"] == 0 or js["appends"] == 0:
         raise common.Infra("forced schedules produced no socket writes (vacuous)")
     tdir = os.path.join(ctx.scratch, "tv_" + label)
@@ -87,7 +89,12 @@ def force_and_validate(ctx, label, sched, conns, spin=False):
         lines = open(sched).read().split("\n")
         events = open(trace).read().split("\n")
         seen = {}
+        BATCH = "[\"pipelined batch: one segment with a SET followed by SCANs whose replies add up to several MB\"]"
         for (l, s, c) in fails:
+            if s >= 1000000:
+                seen.setdefault("batch: part of the output of a pipelined batch (replies of several MB) is written to the socket while the "
+                                "batch's write is still in the AOF buffer", []).append((l, s, c))
+                continue
             steps = json.loads(lines[s])
             live = any(st["c"] == c and st["a"] == "execlive" for st in steps)
             cls = ("go-live hand-off: replies pending on a connection whose pipelined command goes live are written to the socket without flushing the AOF buffer"
@@ -96,10 +103,13 @@ def force_and_validate(ctx, label, sched, conns, spin=False):
             seen.setdefault(cls, []).append((l, s, c))
         for cls, lst in seen.items():
             l, s, c = lst[0]
+            sline = BATCH if s >= 1000000 else lines[s]
             text = "ack-before-flush (%d schedules): %s; first: schedule %s connection %d event %s" % (
-                len(lst), cls, lines[s], c, events[l - 1])
-            common.report(ctx, "c08-%s-%s" % (label, "golive" if "go-live" in cls else "flag"), text, {"kind": "prewrite-schedule", "conns": conns,
-                                                        "schedule": lines[s], "event": events[l - 1]})
+                len(lst), cls, sline, c, events[l - 1])
+            kind = "batch" if s >= 1000000 else ("golive" if "go-live" in cls else "flag")
+            common.report(ctx, "c08-%s-%s" % (label, kind), text, {"kind": "prewrite-schedule", "conns": conns,
+                                                        "schedule": lines[0] if s >= 1000000 else lines[s], "batches": 2 if s >= 1000000 else 0,
+                                                        "event": events[l - 1]})
     return js, flagdiffs, len(fails)
 
 
@@ -108,7 +118,7 @@ def run(ctx):
         p = json.load(open(ctx.replay))
         sched = os.path.join(ctx.scratch, "replay.ndjson")
         open(sched, "w").write(p["schedule"] + "\n")
-        force_and_validate(ctx, "replay", sched, p.get("conns", 2))
+        force_and_validate(ctx, "replay", sched, p.get("conns", 2), batches=p.get("batches", 0))
         return
     d = design(ctx)
     states, trans, forced, writes = d["distinct"], d["generated"], 0, 0
@@ -118,8 +128,8 @@ def run(ctx):
     states += r["distinct"]
     trans += n
     samples.append(open(sched).readline().strip())
-    js, fd, nf = force_and_validate(ctx, "two", sched, 2)
-    forced += js["schedules"]
+    js, fd, nf = force_and_validate(ctx, "two", sched, 2, batches=2)
+    forced += js["schedules"] + js.get("batches", 0)
     writes += js["writes"]
     # random schedules of 3 connections
     r, sched, n = schedules(ctx, "three", 3, 2, simulate=ctx.pick(400, 6000), depth=80)
